@@ -17,6 +17,22 @@ from .sortmodel import KeyMat, IntVec
 Names = z3.DeclareSort("Names")
 nlen = z3.Function("nlen", Names, I)
 nat = z3.Function("nat", Names, I, Name)
+npos = z3.Function("npos", Names, Name, I)        # first position of a name in a tuple of names (meaningful when nin holds)
+
+
+def nin(nm, x):
+    """x in nm"""
+    return z3.And(0 <= npos(nm, x), npos(nm, x) < nlen(nm), nat(nm, npos(nm, x)) == x)
+
+
+def names_axioms(ctx):
+    nm = z3.Const(ctx.fresh("nm"), Names)
+    d = z3.Int(ctx.fresh("d"))
+    # every element of a tuple is `in` it, and npos is its first position
+    return [z3.ForAll([nm, d], z3.Implies(z3.And(0 <= d, d < nlen(nm)), z3.And(
+        0 <= npos(nm, nat(nm, d)), npos(nm, nat(nm, d)) <= d, nat(nm, npos(nm, nat(nm, d))) == nat(nm, d))),
+        patterns=[nat(nm, d)]),
+        z3.ForAll([nm], nlen(nm) >= 0)]
 
 shp0 = z3.Const("shp_scalar", Shp)               # shape ()
 ravel_shape = z3.Function("ravel_shape", Shp, Shp)
@@ -86,6 +102,10 @@ def promoted_dtype(ex, seq):
 
 
 def shape_axioms(ctx):
+    return _shape_axioms(ctx) + names_axioms(ctx)
+
+
+def _shape_axioms(ctx):
     s = z3.Const(ctx.fresh("s"), Shp)
     i = z3.Const(ctx.fresh("i"), Idx)
     s2 = z3.Const(ctx.fresh("s"), Shp)
@@ -541,6 +561,34 @@ class ExpMat:
         return NotImplemented
 
     def sx_setitem(self, ex, idx, value, node):
+        if isinstance(idx, tuple) and len(idx) == 2 and idx[0] == slice(None, None, None) and isinstance(idx[1], IntVec) \
+                and isinstance(value, ExpMat):
+            # exponents[:, indices] = matrix : column j of `matrix` goes to column indices[j]
+            iv, src = idx[1], value
+            ctx = ex.ctx
+            site = ex.site("column_scatter")
+            frame_check(ex, self.region, node)
+            ex.oblige(f"pre({site}).rows", src.n == self.n, "precondition", node)
+            ex.oblige(f"pre({site}).one_index_per_source_column", iv.n == src.D, "precondition", node,
+                      note="numpy raises ValueError when the shapes do not match")
+            ex.oblige(f"pre({site}).indices_in_bounds", ctx.forall_range(0, iv.n, lambda j: z3.And(0 <= iv.at(j), iv.at(j) < self.D)),
+                      "index", node)
+            ex.oblige(f"pre({site}).indices_pairwise_different", ctx.forall_range2(0, iv.n, lambda j, l: iv.at(j) != iv.at(l)),
+                      "precondition", node, note="with a repeated index the last write wins: not modelled")
+            jof = ctx.func("scatter_src", I, I)               # source column of a target column, if any
+            ctx.assume(ctx.forall_range(0, iv.n, lambda j: jof(iv.at(j)) == j, pat=lambda j: iv.at(j)))
+            old, srow = self._row, src._row
+            new = ctx.func("rowscatter", I, Mono)
+            t, c = z3.Int(ctx.fresh("t")), z3.Int(ctx.fresh("c"))
+            hit = lambda c: z3.And(0 <= jof(c), jof(c) < iv.n, iv.at(jof(c)) == c)
+            ctx.assume(z3.ForAll([t, c], expo(new(t), c) == z3.If(hit(c), expo(srow(t), jof(c)), expo(old(t), c)),
+                                 patterns=[expo(new(t), c)]))
+            jj = z3.Int(ctx.fresh("j"))
+            ctx.assume(z3.ForAll([t, jj], z3.Implies(z3.And(0 <= jj, jj < iv.n), expo(new(t), iv.at(jj)) == expo(srow(t), jj)),
+                                 patterns=[expo(srow(t), jj)]))
+            self._row = lambda t: new(t)
+            self.scattered = dict(src=src, indices=iv, old=old, jof=jof)
+            return
         if isinstance(idx, tuple) and len(idx) == 2 and idx[0] == slice(None, None, None) and \
                 isinstance(idx[1], (int, z3.ArithRef)) and isinstance(value, IntVec):
             d = idx[1]
@@ -923,8 +971,7 @@ class NamesV:
     def sx_contains(self, ex, item, node):
         if self.concrete is not None and isinstance(item, str):
             return item in self.concrete
-        x = as_name(ex, item, node)
-        return z3.Not(ex.ctx.forall_range(0, nlen(self.term), lambda d: nat(self.term, d) != x))
+        return nin(self.term, as_name(ex, item, node))
 
     def sx_tuple(self, ex, node):
         return self
@@ -949,14 +996,16 @@ class NamesV:
     def sx_method(self, ex, attr, args, kw, node):
         if attr == "index" and len(args) == 1 and not kw:
             x = as_name(ex, args[0], node)
-            ctx = ex.ctx
             nm = self.term
-            present = z3.Not(ctx.forall_range(0, nlen(nm), lambda d: nat(nm, d) != x))
-            if ex.decide(present, "names.index"):
-                pos = ctx.int("name_pos")
-                ctx.assume(z3.And(0 <= pos, pos < nlen(nm), nat(nm, pos) == x,
-                                  ctx.forall_range(0, pos, lambda d: nat(nm, d) != x)))
-                return pos
+            if getattr(ex, "lazy_depth", 0) > 0:
+                # inside a lazily evaluated comprehension element: record the definedness condition instead of forking
+                if getattr(ex, "lazy_pre", None):
+                    ex.lazy_pre[-1].append(nin(nm, x))
+                return npos(nm, x)
+            if ex.decide(nin(nm, x), "names.index"):
+                return npos(nm, x)
+            # not `in` the tuple: no position holds the name
+            ex.ctx.assume(ex.ctx.forall_range(0, nlen(nm), lambda d: nat(nm, d) != x))
             from .sx import RaiseSig
             raise RaiseSig("ValueError", node, "tuple.index(x): x not in tuple")
         raise U(f"tuple.{attr} on a name tuple", node)
@@ -1156,6 +1205,12 @@ def install(reg):
         if isinstance(a, list) and not a and not kw:
             e = Arr(shape1(z3.IntVal(0)), lambda i: z3.RealVal(0), "real", dt_float, Region("fresh"))
             return e
+        if isinstance(a, V.Seq) and not kw and len(args) == 1:
+            probe = a.item(z3.Int(ex.ctx.fresh("probe")))
+            if isinstance(probe, z3.ArithRef) and probe.is_int():
+                iv = IntVec(a.n, a.item, "fresh")
+                iv.from_seq = a
+                return iv
         raise U("numpy.array of this value", node)
 
     @ax("numpy.asarray")
@@ -1509,7 +1564,57 @@ def unique_rows(ex, X):
     return U_
 
 
+class NameUnion:
+    """{name for poly in polys for name in poly.names}: the union of the name tuples `terms`"""
+
+    def __init__(self, terms):
+        self.terms = terms
+
+    def sx_sorted(self, ex, kw, node):
+        import ast as _ast
+        key = kw.get("key")
+        # the only key recognised: the numeric suffix after the default variable-name prefix
+        ok = isinstance(key, V.Closure) and isinstance(key.node, _ast.Lambda) and len(key.node.args.args) == 1 \
+            and _ast.unparse(key.node.body) == f"int({key.node.args.args[0].arg}[length:] or '0')"
+        length = key.env.get("length") if ok else None
+        ok = ok and isinstance(length, z3.ArithRef) and length.decl().name() == "ovlen"
+        if not ok or set(kw) != {"key"}:
+            raise U("sorted(set of names) with an unrecognised key", node)
+        ex.ctx.option_atoms.add("default_varname")
+        return sorted_union(ex, self.terms)
+
+
+def sorted_union(ex, terms):
+    """tuple(sorted(union of the name tuples, key=numeric suffix)): CPython's set/sorted semantics as axioms
+    (A6: names are canonical, so the numeric suffix `rank` orders them)"""
+    from .logic import rank
+    ctx = ex.ctx
+    cn = ctx.const("common_names", Names)
+    ctx.assume(names_distinct(ctx, cn))
+    for nm in terms:
+        ctx.assume(ctx.forall_range(0, nlen(nm), lambda d, nm=nm: nin(cn, nat(nm, d)), pat=lambda d, nm=nm: nat(nm, d)))
+    ctx.assume(ctx.forall_range(0, nlen(cn), lambda e: z3.Or(*[nin(nm, nat(cn, e)) for nm in terms]), pat=lambda e: nat(cn, e)))
+    ctx.assume(ctx.forall_range2(0, nlen(cn), lambda e, f: rank(nat(cn, e)) <= rank(nat(cn, f))))
+    out = NamesV(cn)
+    out.union_of = list(terms)
+    return out
+
+
+def _make_union(ex, r, node):
+    terms = []
+    K = z3.Int("k!union")
+    for x in r:
+        if not isinstance(x, V.Chunk):
+            raise U("set of names with single elements", node)
+        e = x.seq.item(K)
+        if not (isinstance(e, z3.ExprRef) and e.decl().name() == "nat" and e.num_args() == 2 and z3.eq(e.arg(1), K)):
+            raise U("set comprehension over something else than name tuples", node)
+        terms.append(e.arg(0))
+    return NameUnion(terms)
+
+
 def install_align(reg):
+    reg.make_union = _make_union
     ax = reg.axiom
     prev_zeros = reg.fn["numpy.zeros"]
     prev_unique = reg.fn["numpy.unique"]
